@@ -313,8 +313,3 @@ Definition check_case (k : list (string * string) * list comp * (list obs * list
 (* the traversal alone, on arbitrary nested dictionaries: (value, buffer) *)
 Definition check_ser (k : jv * option string) : bool :=
   opt_eqb String.eqb (ser_jv (fst k)) (snd k).
-
-(* F16b witness: (graph, index, executable reported by the implementation) *)
-Definition check_exe (k : list comp * nat * string) : bool :=
-  let '(g, n, e) := k in
-  match nth_error g n with Some c => String.eqb (c_exe c) e | None => false end.
